@@ -227,6 +227,9 @@ func genBinScenario(g *Gen) Case {
 		}
 		steps = append(steps, obj("argv", hxs(argv)))
 	}
+	// the installation must still be listable at the end, whatever the names look like
+	steps = append([]interface{}{obj("argv", hxs([]string{"list"}))}, steps...)
+	steps = append(steps, obj("argv", hxs([]string{"list"})), obj("argv", hxs([]string{"status"})))
 	return Case{"op": "binscn", "cfg": defaultCfg(), "tree": t.list(), "steps": steps}
 }
 
